@@ -107,6 +107,26 @@ def directed_handle_histories():
                 hs.append({"config": {"rs": [1, 3, 20][k % 3], "cache": "file"}, "blobs": [{"seed": 1, "len": size0}, {"seed": 2, "len": 4}, {"seed": 3, "len": 2}, {"seed": 4, "len": 3}],
                            "obs": [], "calls": calls, "_directed": True})
                 k += 1
+    # pipeline configurations: the same byte-array behaviour is asked for under every codec; the corner is EMPTY content (an encoder
+    # may emit bytes for it or nothing at all) reached through every way of emptying a file, and a plain write/seek/read sequence
+    for cfg in ({"comp": "gzip"}, {"comp": "zstandard"}, {"enc": "age"}, {"comp": "bzip2", "enc": "age"}, {"comp": "lz4"}):
+        for how in ("truncate0", "otrunc", "truncate-grow", "overwrite"):
+            for cache in ("file", "memory"):
+                if cache == "memory" and how in ("overwrite",):
+                    continue          # the memory cache has its own known finding for overwrites inside the buffer
+                fl = hist.O_RDWR | (hist.O_TRUNC if how == "otrunc" else 0)
+                calls = [{"op": "initialize"}, {"op": "createfile", "name": "/f", "blob": 0}, {"op": "open", "h": "a", "name": "/f", "flags": fl, "perm": 0o644}]
+                if how == "truncate0":
+                    calls += [{"op": "truncate", "h": "a", "off": 0}]
+                elif how == "truncate-grow":
+                    calls += [{"op": "truncate", "h": "a", "off": 0}, {"op": "truncate", "h": "a", "off": 7}]
+                elif how == "overwrite":
+                    calls += [{"op": "seek", "h": "a", "whence": 0, "off": 5}, {"op": "write", "h": "a", "data": base64.b64encode(pat(2, 0, 4)).decode()}]
+                calls += [{"op": "close", "h": "a"}, {"op": "readfile", "name": "/f"}, {"op": "stat", "name": "/f"},
+                          {"op": "open", "h": "a", "name": "/f", "flags": hist.O_RDONLY, "perm": 0}, {"op": "seek", "h": "a", "whence": 2, "off": 0}, {"op": "read", "h": "a", "n": 8}, {"op": "close", "h": "a"}]
+                hs.append({"config": dict({"rs": [1, 3, 20][k % 3], "cache": cache}, **cfg), "blobs": [{"seed": 1, "len": 600}, {"seed": 2, "len": 4}], "obs": [], "calls": calls,
+                           "_directed": True, "_nomodel": True})
+                k += 1
     return hs
 
 
